@@ -172,6 +172,10 @@ fn defined_v(op: &OpK, l: &V, r: T) -> bool {
             _ => false,
         };
     }
+    // a partial can be applied when its receiver can be called
+    if let (Fam::Apply | Fam::EmptyApply, V::Partial(receiver, _)) = (op.fam, l) {
+        return matches!(receiver.type_of(), T::Expression | T::External);
+    }
     defined(op, l.type_of(), r)
 }
 
@@ -474,6 +478,8 @@ struct Obs {
     /// Source path only: the program's final value, or why there is none
     program: Option<Result<V, String>>,
     wrapped: bool,
+    /// depth of the input-value stack before / after the instruction (instruction-level paths only)
+    values: Option<(usize, usize)>,
 }
 
 const MARK: i32 = 7_700_000;
@@ -600,6 +606,7 @@ fn observe<D: Sub8>(op: &OpK, l: &V, r: Option<&V>, mode: DeferMode, path: Path,
     d.host_mut().log.clear();
 
     let cursor_before = d.get_instruction_cursor();
+    let values_before = d.value_depth();
     let res = match path {
         Path::Execute => match execute_current_instruction(&mut d) {
             Ok(info) => Res::Ok { running: info.get_state() == SimpleRuntimeState::Running },
@@ -620,6 +627,7 @@ fn observe<D: Sub8>(op: &OpK, l: &V, r: Option<&V>, mode: DeferMode, path: Path,
         },
     };
     let defers = defer_calls(d.host());
+    let values_after = d.value_depth();
     let regs_after = all_registers(&d);
     let top = regs_after.first().map(|a| get(&d, *a));
     let cursor_after = d.get_instruction_cursor();
@@ -638,7 +646,7 @@ fn observe<D: Sub8>(op: &OpK, l: &V, r: Option<&V>, mode: DeferMode, path: Path,
             },
         });
     }
-    Ok(Obs { res, defers, left_shown, right_shown, regs_after, top, markers: marker_addrs, cursor_before, cursor_after, next, program: None, wrapped: false })
+    Ok(Obs { res, defers, left_shown, right_shown, regs_after, top, markers: marker_addrs, cursor_before, cursor_after, next, program: None, wrapped: false, values: Some((values_before, values_after)) })
 }
 
 fn defer_calls(h: &Host) -> Vec<(String, (String, String), (String, String))> {
@@ -697,7 +705,7 @@ fn observe_source<D: Sub8>(op: &OpK, l: &V, r: Option<&V>, mode: DeferMode, wrap
         None => Err("no current value".to_string()),
     });
     let defers = defer_calls(d.host());
-    Ok(Obs { res, defers, left_shown, right_shown, regs_after: vec![], top: program.clone().and_then(|p| p.ok()), markers: vec![], cursor_before: 0, cursor_after: 0, next: None, program, wrapped })
+    Ok(Obs { res, defers, left_shown, right_shown, regs_after: vec![], top: program.clone().and_then(|p| p.ok()), markers: vec![], cursor_before: 0, cursor_after: 0, next: None, program, wrapped, values: None })
 }
 
 /// Text of a runtime error without Debug-formatting it (a DataError may carry a captured backtrace whose
@@ -724,10 +732,21 @@ fn judge(op: &OpK, l: &V, r: Option<&V>, mode: DeferMode, o: &Obs) -> Option<(St
         return Some(("err-unsupported-op-types".into(), "Err(RuntimeError{UnsupportedOpTypes})".into()));
     }
     if is_defined {
+        // applying a symbol list to a list walks a chain of accesses: a step that lands on a value the next part
+        // cannot index is an undefined combination inside a defined one - the chain ends with unit, it does not fail
+        if let (Fam::Apply, T::List, T::SymbolList, Res::Err(m)) = (op.fam, lt, rt, &o.res) {
+            return Some((format!("err-in-symbol-list-chain[{}]", err_kind(m)), m.clone()));
+        }
         return None;
     }
     if let Res::Err(m) = &o.res {
         return Some((format!("err[{}]", err_kind(m)), m.clone()));
+    }
+    // an operation without a defined result leaves the input-value stack alone
+    if let Some((before, after)) = o.values {
+        if before != after {
+            return Some(("input-value-stack-changed".into(), format!("value stack depth {} -> {}", before, after)));
+        }
     }
     let running = matches!(o.res, Res::Ok { running: true });
     // host offered exactly once, with this operation and the operands in source order
